@@ -347,9 +347,14 @@ class Client:
                 if res.var == 'Err':
                     return Enum('Poll', 'Ready', [res])
             elif op == 'release_mine':
-                r = eng.call('JobServerHandle::release_mine', [self.h], None, None)
-                if r.var == 'Err':
-                    return Enum('Poll', 'Ready', [r])
+                # builder::run gives up its own token before blocking on another builder's lock; whether it first asks
+                # has_token() is read from the source text of builder.rs (builder::run itself is not executed)
+                if builder_guards_release_mine(eng) and not eng.call('JobServerHandle::has_token', [self.h], None, None):
+                    eng.world.ev('release_mine-skipped')
+                else:
+                    r = eng.call('JobServerHandle::release_mine', [self.h], None, None)
+                    if r.var == 'Err':
+                        return Enum('Poll', 'Ready', [r])
             elif op == 'sleep':
                 if self.cur is None:
                     self.cur = new_cell(eng.call('JobServerHandle::sleep', [self.h, Struct('Duration', [50 * 1000000])], None, None))
@@ -367,3 +372,23 @@ class Client:
                 raise Unsupported('client op %r' % op)
             self.done_ops.append(op)
             self.pc += 1
+
+
+_GUARD = {}
+
+
+def builder_guards_release_mine(eng):
+    if 'v' not in _GUARD:
+        import os
+        import re
+        src = open(os.path.join(eng.src.root, 'src/builder.rs')).read()
+        lines = [l.strip() for l in src.split('\n')]
+        v = False
+        for i, l in enumerate(lines):
+            if re.match(r'server\.release_mine\(\)\?;', l):
+                j = i - 1
+                while j >= 0 and (lines[j].startswith('//') or not lines[j]):
+                    j -= 1
+                v = bool(re.match(r'if server\.has_token\(\)\s*\{', lines[j]))
+        _GUARD['v'] = v
+    return _GUARD['v']
